@@ -33,6 +33,76 @@ POLLUTERS = [
 ]
 
 
+# names that resolve in two namespaces at once: which one wins must not depend on any iteration order
+SHADOW = [
+    ('out int x = 0; out int y = 0; macro m(expr x) { y = [x + 1]; } parser { "a"; m(5); x = 3; "b"; m(9); }', []),
+    ('out int x = 2; out int y = 0; macro m(expr x) { if [x == 2] { y = 1; } else { y = [x]; } } parser { "a"; m(7); "b"; }', []),
+    ('hook g; out int y = 0; macro h() { y = 7; } macro m(hook h) { h(); } parser { "a"; m(g); "b"; }', []),
+    ('hook h; out int y = 0; macro g() { y = 7; } macro m(macro h) { h(); } parser { "a"; m(g); "b"; }', []),
+    ('out int x = 0; out int y = 0; macro m(out x) { x = 5; } parser { "a"; m(y); "b"; }', []),
+    ('out int x = 1; out int y = 0; macro inner(expr x) { y = [x * 2]; } macro outer(expr x) { inner([x + 1]); } parser { "a"; outer(4); "b"; }', []),
+    ('out str[4] x; out str[4] y; macro m(expr x) { y += x; } parser { x = "q"; "a"; m("zz"); "b"; }', []),
+    ('finishcode F, G; macro m(finishcode F) { finish F; } parser { "a"; m(G); }', []),
+    ('out int n = 0; macro m(loop l) { break l; } parser { loop l { loop k { "a"; n = [n + 1]; m(k); } "b"; break l; } "c"; }', []),
+    ('out int x = 0; macro m(match x) { x; } parser { m("ab"); x = 1; "c"; }', []),
+]
+
+FLIP = ["-fstrict-done-token-generation", "-feof-support", "-fyield-support", "-fallocate-str-space-dynamic", "-fstrings-as-u8", "-finclude-user-ptr",
+        "-fuse-packed-enums", "-fzero-len-input-support"]
+
+
+def flipped(argv, which):
+    """the same program under other options: the compilation most likely to leave something behind that matters to the next one"""
+    out = [a for a in argv if a not in ("-O0", "-O1", "-O2", "-O3")]
+    if which == "strict":
+        return out + (["-fstrict-done-token-generation"] if "-fstrict-done-token-generation" not in argv else []) + [a for a in argv if a.startswith("-O")]
+    out += [f for f in FLIP if f not in argv]
+    out.append("-O3" if "-O0" in argv else "-O0")
+    return out
+
+
+_COVER = None
+
+
+def cover_seeds(limit=10):
+    """PYTHONHASHSEED values chosen so that, for every pair of members of every nmfu Enum hashed by name, both iteration orders of the
+    two-element set occur (string hashes are the one layout the explorer cannot set directly, so it selects seeds by their effect)"""
+    global _COVER
+    if _COVER is not None:
+        return _COVER
+    import enum
+    from nv import loader
+    classes = {}
+    for nm, c in vars(loader.N).items():
+        if isinstance(c, type) and issubclass(c, enum.Enum) and c.__hash__ is enum.Enum.__hash__ and 2 <= len(c) <= 16:
+            classes[nm] = [m._name_ for m in c]
+    names = sorted(set(n for v in classes.values() for n in v))
+    code = "import json,sys; print(json.dumps({n: hash(n) & 7 for n in json.loads(sys.argv[1])}))"
+    slot = {}
+    for hs in range(40):
+        env = dict(os.environ, PYTHONHASHSEED=str(hs))
+        r = subprocess.run([sys.executable, "-c", code, json.dumps(names)], capture_output=True, text=True, env=env)
+        slot[hs] = json.loads(r.stdout)
+    targets = set()
+    covers = {hs: set() for hs in slot}
+    for cn, ms in classes.items():
+        for a, b in itertools.combinations(ms, 2):
+            for hs, sl in slot.items():
+                if sl[a] != sl[b]:          # equal slots: insertion order, not hash order
+                    covers[hs].add((cn, a, b, sl[a] < sl[b]))
+            targets.add((cn, a, b, True))
+            targets.add((cn, a, b, False))
+    chosen, left = [0], set(targets) - covers[0]
+    while left and len(chosen) < limit:
+        best = max(sorted(slot), key=lambda h: len(covers[h] & left))
+        if not covers[best] & left:
+            break
+        chosen.append(best)
+        left -= covers[best]
+    _COVER = (chosen, len(targets), len(targets) - len(left))
+    return _COVER
+
+
 def programs(tier, seed):
     from nv import progs, universe as U
     from checks import c08
@@ -57,6 +127,8 @@ def programs(tier, seed):
             out.append(dict(label="U#%d" % i, src=U.source(p), argv=U.needs_flags(p)))
     for j, p in enumerate(U.handwritten()):
         out.append(dict(label="HW#%d" % j, src=U.source(tuple(p)), argv=U.needs_flags(tuple(p))))
+    for j, (src, argv) in enumerate(SHADOW):
+        out.append(dict(label="SHADOW#%d" % j, src=src + "\n", argv=argv))
     alt = ["/(ab|ac|ad)+e|(a|b)c?/", "/[a-c][^a]c|x(y|z)*/", "/(a|b|c)(a|b|c)(a|b)/"]
     for a in alt:
         out.append(dict(label="ALT", src="hook h; parser { %s; h(); \";\"; }\n" % a, argv=[]))
@@ -87,22 +159,50 @@ def child_main(job_path):
             if v is None:
                 k = ctl.count.get(cls.__name__, 0)
                 ctl.count[cls.__name__] = k + 1
-                v = self.__dict__["_vh"] = (ctl.perm(cls.__name__, k) if ctl.perm else k) * 8 + 1
+                v = self.__dict__["_vh"] = (ctl.perm(cls.__name__, k) if ctl.perm else k)
             return v
         return h
     for c in CLASSES:
         c.__hash__ = mk(c)
     # subclasses that define __eq__ lose the inherited __hash__ (set to None) and are unhashable anyway
 
-    def compile_(src, argv):
-        return loader.compile_source(src, argv, codegen=True)
+    def compile_(src, argv, perm=None):
+        ctl.reset(perm)          # creation counters restart: the same compilation gets the same virtual hashes every time
+        try:
+            return loader.compile_source(src, argv, codegen=True)
+        finally:
+            ctl.perm = None
+
+    def cdigest(o, reps_c):
+        """behaviour of the generated C itself (flags of o are still loaded): trace hash of every string <= Lc, one chunk and byte-wise"""
+        from nv import cbuild
+        eof = "-feof-support" in argv
+        try:
+            with cbuild.CProg(o, "gcc") as cp:
+                script = cp.op_exhaust(job["Lc"], reps_c, do_end=eof, digest=True, no_offsets=True) + cp.op_exhaust(max(job["Lc"] - 1, 1), reps_c, do_end=eof, digest=True, bytewise=True, no_offsets=True)
+                recs, status = cp.run(script, timeout=120)
+                if status != "ok":
+                    return "run:" + status
+                return hashlib.sha256(repr([r[1]["digests"] for r in recs]).encode()).hexdigest()
+        except cbuild.BuildError as e:
+            return "cbuild_failed"
+
+    import re
+
+    def ctext(o):
+        """the emitted C without comments (they quote Python object reprs, i.e. memory addresses)"""
+        t = (o.header or "") + (o.source or "")
+        t = re.sub(r"(?m)^\s*//[^\n]*$", "", t)         # whole-line comments only: never touches a string literal
+        return hashlib.sha256(t.encode()).hexdigest()
 
     def verdict(o):
         return [o.kind, getattr(o, "cls", None) or getattr(o, "phase", None)]
 
     src, argv = job["src"], job["argv"]
+    for psrc, pargv in job.get("pre", []):      # compilations that come BEFORE the first compilation of the program in this interpreter
+        compile_(psrc, pargv)
     base = compile_(src, argv)
-    out = dict(verdict=verdict(base), diffs=[], scenarios=0, states=0, trans=0, table=None, ctext=None)
+    out = dict(verdict=verdict(base), diffs=[], scenarios=0, states=0, trans=0, table=None, ctext=None, cdigest=None, c_runs=0, reps=None)
     A = None
     reps = None
     if base.kind == "accepted":
@@ -134,7 +234,10 @@ def child_main(job_path):
                         rec.append(repr(sorted(cfg["data"].items())))
                 hsh.update(repr(rec).encode())
         out["table"] = hsh.hexdigest()
-        out["ctext"] = hashlib.sha256((base.source or "").encode()).hexdigest()
+        out["ctext"] = ctext(base)
+        out["reps"] = reps_t
+        out["cdigest"] = cdigest(base, reps_t)
+        out["c_runs"] += 1
 
     def compare(tag, o):
         out["scenarios"] += 1
@@ -143,6 +246,9 @@ def child_main(job_path):
             return
         if A is None or o.kind != "accepted":
             return
+        if ctext(o) == out["ctext"]:
+            out["same_text"] = out.get("same_text", 0) + 1      # the same C program: nothing further to compare
+            return
         B = AM(o.dctx)
         r = bisim.bisim(A, B, sorted(set(reps) | set(x for x in bisim.reps_for([B]) if x < 256)), slack=False, max_states=job["cap"])
         out["states"] += r.states
@@ -150,7 +256,19 @@ def child_main(job_path):
         if r.status == "diff":
             p = r.path if not isinstance(r.path, tuple) else r.path[0]
             out["diffs"].append(dict(scenario=tag, what="machine differs from the first compilation: %s (input %r)" % (r.why, p)))
+            return
+        # the emitted C: identical text needs no run; any other text is built and run on every string <= Lc
+        if True:
+            out["text_differs"] = out.get("text_differs", 0) + 1
+            if tag[0] != "layout" or job.get("c_layouts"):
+                d = cdigest(o, out["reps"])
+                out["c_runs"] += 1
+                if d != out["cdigest"] and "cbuild_failed" not in (d, out["cdigest"]):
+                    out["diffs"].append(dict(scenario=tag, what="the generated C behaves differently from the first compilation's on some string <= %d (trace digests %s.. vs %s..)" % (job["Lc"], str(d)[:12], str(out["cdigest"])[:12])))
 
+    if A is not None and len(A.states) > 150:
+        job["few_histories"] = True       # large machines (seconds per compilation): single-polluter histories and the four hottest classes only
+        out["large"] = True
     compare(["again"], compile_(src, argv))
     pol = job["polluters"]
     seqs = [(i,) for i in range(len(pol))] + list(itertools.product(range(len(pol)), repeat=2))
@@ -182,11 +300,7 @@ def child_main(job_path):
             f = lambda cls, k: (k * 7) % 16 + (k // 16) * 16
         else:
             f = (lambda nm, perm: lambda cls, k: (perm[k] if (cls in nm and k < 3) else k))(nm, perm)
-        ctl.reset(f)
-        try:
-            o = compile_(src, argv)
-        finally:
-            ctl.reset(None)
+        o = compile_(src, argv, f)
         compare(["layout", kind, str(nm), str(perm)], o)
         if len(out["diffs"]) >= 3:
             break
@@ -198,9 +312,13 @@ def child_main(job_path):
 def run_child(item):
     import tempfile
     res = []
-    for hs in item["seeds"]:
+    own = [(item["src"], flipped(item["argv"], "all")), (item["src"], flipped(item["argv"], "strict"))]
+    pres = {"": [], "all": [own[0]], "strict": [own[1]], "other": [POLLUTERS[1], POLLUTERS[6]]}
+    for hs, pre in item["children"]:
+        first = (hs, pre) == tuple(item["children"][0])
         with tempfile.NamedTemporaryFile("w", suffix=".json", delete=False) as f:
-            json.dump(dict(src=item["src"], argv=item["argv"], polluters=POLLUTERS, L=item["L"], cap=item["cap"], few_histories=item["few"] or hs != 0, pairs=item["pairs"] and hs == 0), f)
+            json.dump(dict(src=item["src"], argv=item["argv"], polluters=POLLUTERS + own, L=item["L"], Lc=item["Lc"], cap=item["cap"], pre=pres[pre],
+                           few_histories=item["few"] or not first, pairs=item["pairs"] and first, c_layouts=first), f)
             jp = f.name
         env = dict(os.environ)
         env["PYTHONHASHSEED"] = str(hs)
@@ -211,20 +329,39 @@ def run_child(item):
             os.unlink(jp)
         line = next((l for l in p.stdout.splitlines() if l.startswith("RESULT ")), None)
         if line is None:
-            return dict(harness_error="child failed (seed %d): %s" % (hs, p.stderr[-1500:]))
+            return dict(harness_error="child failed (seed %d, pre %s): %s" % (hs, pre, p.stderr[-1500:]))
         res.append(json.loads(line[7:]))
     return dict(children=res)
+
+
+def children_for(tier, seed, i, label, cover):
+    """(PYTHONHASHSEED, what was compiled before the program's first compilation) per child interpreter; the first child is the reference"""
+    if label.startswith("SHADOW"):
+        return [(h, "") for h in cover] + [(0, "all"), (0, "strict"), (0, "other")]
+    if tier == "thorough":
+        return [(h, "") for h in cover[:4]] + [(0, "all"), (0, "strict"), (0, "other")]
+    ch = [(0, "")]
+    if i % 16 == seed % 16:
+        ch += [(h, "") for h in cover[1:4]]
+    elif i % 2 == 0:
+        ch.append((cover[1 + (i // 2 + seed) % (len(cover) - 1)], ""))
+    ch.append((0, ("all", "strict", "other")[(i + seed) % 3]))
+    return ch
 
 
 def run(tier, seed):
     from nv.framework import Check, pmap, sha, harness_fail
     ck = Check("C20", tier, seed, "model_checking",
-               rule="per program: 4 interpreters (PYTHONHASHSEED 0..3) x (recompile, every polluter sequence of length <= 2 (seed 0; a fifth of the pairs for the other seeds), 56 controlled identity-hash layouts); "
-                    "each recompilation compared with the first by verdict and by exhaustive bisimulation without slack; distinct = programs x scenarios compared")
+               rule="per program: child interpreters (PYTHONHASHSEED from a set covering both orders of every pair of name-hashed enum members; interpreters whose FIRST compilation is another program or the same program under flipped options) x "
+                    "(recompile, every polluter sequence of length <= 2 incl. the program itself under flipped options, controlled identity-hash layouts); each recompilation compared with the first by verdict and, unless the emitted C is textually the same program (comments aside), "
+                    "by exhaustive bisimulation without slack of the two machines and by running both C programs on every string <= 4; children compared by verdict, behaviour table and C trace digests; "
+                    "distinct = programs x scenarios compared")
     progs_ = programs(tier, seed)
-    items = [dict(label=p["label"], src=p["src"], argv=p["argv"], seeds=[0, 1, 2, 3] if (tier == "thorough" or i % 16 == seed % 16) else ([0, 1 + (i % 3)] if i % 2 == 0 else [0]),
-                  L=4, cap=800 if tier == "quick" else 4000, few=(tier == "quick" and i % 9 != seed % 9), pairs=(tier == "thorough")) for i, p in enumerate(progs_)]
-    stats = dict(programs=len(items), accepted=0, children=0, scenarios=0, canonical_c_text_varies_with_hash_seed=0)
+    cover, n_targets, n_covered = cover_seeds()
+    items = [dict(label=p["label"], src=p["src"], argv=p["argv"], children=children_for(tier, seed, i, p["label"], cover),
+                  L=4, Lc=4, cap=800 if tier == "quick" else 4000, few=(tier == "quick" and i % 9 != seed % 9 and not p["label"].startswith("SHADOW")), pairs=(tier == "thorough")) for i, p in enumerate(progs_)]
+    stats = dict(programs=len(items), accepted=0, children=0, scenarios=0, c_programs_built_and_run=0, recompilations_with_different_c_text=0, recompilations_with_identical_c_text=0, canonical_c_text_varies_between_children=0,
+                 hash_seeds=cover, enum_pair_orders_targeted=n_targets, enum_pair_orders_covered=n_covered)
     for idx, r in pmap(run_child, items, timeout=3000, chunksize=1, stop=ck.enough):
         if "harness_error" in r or "harness_timeout" in r:
             harness_fail("%s on %s" % (r, items[idx]["label"]))
@@ -235,40 +372,49 @@ def run(tier, seed):
         if v0[0] == "accepted":
             stats["accepted"] += 1
         for i, c in enumerate(ch):
+            hs, pre = it["children"][i]
+            who = "PYTHONHASHSEED=%d%s" % (hs, (" after compiling %s first" % pre) if pre else "")
             stats["scenarios"] += c["scenarios"]
-            ck.add(states=c["states"], transitions=c["trans"], evaluations=c["scenarios"], traces_validated_against_impl=c["scenarios"])
+            stats["c_programs_built_and_run"] += c["c_runs"]
+            stats["recompilations_with_different_c_text"] += c.get("text_differs", 0)
+            stats["recompilations_with_identical_c_text"] += c.get("same_text", 0)
+            ck.add(states=c["states"], transitions=c["trans"], evaluations=c["scenarios"] + c["c_runs"], traces_validated_against_impl=c["scenarios"])
             ck.note((it["label"], i, c["scenarios"]))
+            rp = dict(src=it["src"], argv=it["argv"], hashseed=hs, pre=pre)
             for d in c["diffs"]:
-                ck.violation("C20:history:%s:%s" % (" ".join(map(str, d["scenario"][:2])), sha(it["src"])[:10]), "%s: PYTHONHASHSEED=%d scenario %s: %s" % (it["label"], it["seeds"][i], d["scenario"], d["what"]),
-                             dict(src=it["src"], argv=it["argv"], hashseed=it["seeds"][i], scenario=d["scenario"]))
+                ck.violation("C20:history:%s:%s" % (" ".join(map(str, d["scenario"][:2])), sha(it["src"])[:10]), "%s: %s scenario %s: %s" % (it["label"], who, d["scenario"], d["what"]),
+                             dict(rp, scenario=d["scenario"]))
             if c["verdict"] != v0:
-                ck.violation("C20:seed-verdict:%s" % sha(it["src"])[:10], "%s: verdict %s with PYTHONHASHSEED=%d but %s with %d" % (it["label"], c["verdict"], it["seeds"][i], v0, it["seeds"][0]),
-                             dict(src=it["src"], argv=it["argv"], hashseed=it["seeds"][i], scenario=["fresh"]))
+                ck.violation("C20:child-verdict:%s" % sha(it["src"])[:10], "%s: verdict %s with %s but %s in the reference interpreter" % (it["label"], c["verdict"], who, v0), dict(rp, scenario=["fresh"]))
             elif c["table"] != ch[0]["table"]:
-                ck.violation("C20:seed-behaviour:%s" % sha(it["src"])[:10], "%s: behaviour table (all strings <= 4) differs between PYTHONHASHSEED=%d and %d" % (it["label"], it["seeds"][i], it["seeds"][0]),
-                             dict(src=it["src"], argv=it["argv"], hashseed=it["seeds"][i], scenario=["fresh"]))
+                ck.violation("C20:child-behaviour:%s" % sha(it["src"])[:10], "%s: behaviour table (all strings <= 4) with %s differs from the reference interpreter's" % (it["label"], who), dict(rp, scenario=["fresh"]))
+            elif c["cdigest"] != ch[0]["cdigest"] and c["reps"] == ch[0]["reps"] and "cbuild_failed" not in (c["cdigest"], ch[0]["cdigest"]):
+                ck.violation("C20:child-c-behaviour:%s" % sha(it["src"])[:10], "%s: the generated C run on all strings <= 4 behaves differently with %s than in the reference interpreter" % (it["label"], who), dict(rp, scenario=["fresh"]))
             elif c["ctext"] != ch[0]["ctext"]:
-                stats["canonical_c_text_varies_with_hash_seed"] += 1
+                stats["canonical_c_text_varies_between_children"] += 1
         ck.add(programs=1)
         if idx % 23 == 0:
-            ck.sample(dict(program=it["label"], hash_seeds=it["seeds"], scenarios_per_child=[c["scenarios"] for c in ch], verdict=v0))
+            ck.sample(dict(program=it["label"], children=it["children"], scenarios_per_child=[c["scenarios"] for c in ch], verdict=v0))
     ck.extra.update(stats)
     ck.exhaustive = True
-    ck.assumptions += ["identity-hash order is explored by bounded deviations from creation order (all permutations of the first three instances per class, reversal, a stride permutation), string-hash order by four hash seeds - finite menus, stated as such",
-                       "histories inside one child accumulate (every <= 2 sequence is run after the previous ones); each child starts from a fresh interpreter",
-                       "emitted C text may legitimately differ with layout (state numbering); only verdict and behaviour are compared"]
+    ck.assumptions += ["identity-hash order is explored by bounded deviations from creation order (all permutations of the first three instances per class, reversal, a stride permutation), string-hash order by hash seeds "
+                       "chosen to cover both orders of every enum-member pair - finite menus, stated as such",
+                       "histories inside one child accumulate (every <= 2 sequence is run after the previous ones); each child starts from a fresh interpreter; 'first compilation wins' state is covered by the children that compile something else first",
+                       "emitted C text may legitimately differ with layout (state numbering); text is only used to skip C runs when identical - verdict and behaviour are what is compared"]
     return ck.finish()
 
 
 def replay(path):
     d = json.load(open(path))
-    r = run_child(dict(src=d["src"], argv=d["argv"], seeds=[0, d.get("hashseed", 0)], L=4, cap=4000, few=False, pairs=False))
+    r = run_child(dict(src=d["src"], argv=d["argv"], children=[(0, ""), (d.get("hashseed", 0), d.get("pre", ""))], L=4, Lc=4, cap=4000, few=False, pairs=False))
     bad = False
     if "children" in r:
         ch = r["children"]
-        bad = any(c["diffs"] for c in ch) or any(c["verdict"] != ch[0]["verdict"] or c["table"] != ch[0]["table"] for c in ch)
+        bad = any(c["diffs"] for c in ch) or any(c["verdict"] != ch[0]["verdict"] or c["table"] != ch[0]["table"] or (c["cdigest"] != ch[0]["cdigest"] and c["reps"] == ch[0]["reps"]) for c in ch)
         for c in ch:
             print(c["verdict"], c["diffs"][:2])
+    else:
+        print(r)
     print("REPRODUCED" if bad else "not reproduced")
     return 1 if bad else 0
 
